@@ -72,7 +72,9 @@ def run(ctx):
     return standard(ctx, "C10", ["model/C10_run.vo", "lib/Bytes63.vo"], stages,
                     rule="grammar-directed manifests (1-4 streams, 1-5 blocks of 0-20 bytes with interior empty and repeated blocks, "
                          "file tokens at every block-boundary alignment, repeated tokens/names, names with space, colon, backslash, "
-                         "\\ddd and high bytes, directory markers), 30% single-token mutations, 10% arbitrary byte strings; "
+                         "\\ddd and high bytes, directory markers), 30% single-token mutations (half of them with a second valid manifest "
+                         "appended before the mutation: damaged line first / interior / last), 10% arbitrary byte strings; every "
+                         "manifest goes through StreamIter, Extract x4, BlockIterWithDuplicates+Err, Manifest.FileSegmentIterByName x2; "
                          "distinct by hash of the case term; non-trivial = at least 3 tokens in the text",
                     assumptions=["MD5 is computed by the Gallina implementation lib/Md5.v",
                                  "the Go manifest package runs in a child process: a goroutine panic is observed as outcome Panic",
